@@ -16,7 +16,7 @@ ADDR_VALS = {
 PARAM_VALS = {
     'stmin': [0, 1, 127, 255, 256, -1, 'a', 1.0, None, True],
     'blocksize': [0, 8, 255, 256, -1, 'a', 2.5, None],
-    'override_receiver_stmin': [None, 0, 0.0, 0.001, 5, -0.1, -1, float('nan'), float('inf'), 'x', True, 1e300, 1e299],
+    'override_receiver_stmin': [None, 0, 0.0, 0.001, 5, -0.1, -1, float('nan'), float('inf'), 'x', True, 1e300, 1e299, 10**400],
     'rx_flowcontrol_timeout': [0, 1, 1000, 10**9, -1, 1.5, 'a', None],
     'rx_consecutive_frame_timeout': [0, 1, 1000, 10**9, -1, 2.5, 'a', None],
     'tx_padding': [None, 0, 0xAA, 255, 256, -1, 'a', 1.0],
@@ -27,12 +27,19 @@ PARAM_VALS = {
     'can_fd': [True, False, 1, 0, None, 'a'],
     'bitrate_switch': [True, False, 1, None],
     'default_target_address_type': [0, 1, 2, -1, 'a', None],
-    'rate_limit_max_bitrate': [1, 64, 320, 321, 10000, 100000000, 0, -1, 1.5, 'a', None],
-    'rate_limit_window_size': [0.2, 1, 0.05, 1.0, 0, -1, 0.0, float('nan'), float('inf'), 1e308, 'a', None, True],
+    'rate_limit_max_bitrate': [1, 64, 320, 321, 10000, 100000000, 0, -1, 1.5, 'a', None, 10**400],
+    'rate_limit_window_size': [0.2, 1, 0.05, 1.0, 0, -1, 0.0, float('nan'), float('inf'), 1e308, 'a', None, True, 10**400],
     'rate_limit_enable': [True, False, 1, None],
     'listen_mode': [True, False, 0, None],
     'blocking_send': [True, False, 1, None],
 }
+
+
+def _scaled_finite(ov):
+    try:
+        return math.isfinite(float(ov) * 1e9)
+    except OverflowError:
+        return False
 
 
 def doc_param_verdict(p):
@@ -83,7 +90,7 @@ def doc_param_verdict(p):
             rej()
         elif ov < 0:
             rej()
-        elif not math.isfinite(float(ov) * 1e9):
+        elif not _scaled_finite(ov):
             either()     # finite but not representable in nanoseconds: documentation silent, must not crash later
     for k, d in (('can_fd', False), ('bitrate_switch', False), ('rate_limit_enable', False), ('listen_mode', False), ('blocking_send', False)):
         if not isinstance(p.get(k, d), bool):
